@@ -206,10 +206,48 @@ struct RtStats
   long done = 0, exact = 0, neigh = 0, wrap = 0, miss = 0, miss_tang_edge = 0, as2points = 0;
 };
 
+// defects of the unchanged tree that were demonstrated with their own witness: reported once per case under a key of their own,
+// after which the remaining checks of the configuration go on (so that they do not mask anything else)
+static struct Defects
+{
+  bool generic_badcast, generic_tantheta, arc_view_out_of_range, arccorr_last_bin;
+} D;
+
 // returns false after a violation
 static bool
-check_roundtrip_result(Ctx& ctx, const Cfg& c, const Bin& b, const Bin& nb, const char* lor_kind, RtStats& st)
+check_roundtrip_result(Ctx& ctx, const Cfg& c, const Bin& b, const Bin& nb, const char* lor_kind, RtStats& st, const LOR<float>& lor)
 {
+  bool arc_view_wrap = false;
+  if (c.klass == CYL_ARC)
+    {
+      if (nb.get_bin_value() > 0)
+        arc_view_wrap = nb.view_num() < c.pdi->get_min_view_num() || nb.view_num() > c.pdi->get_max_view_num();
+      else
+        {
+          // diagnosis only: the same wrap also negates the tangential position, which can then fall outside the tangential range
+          LORInAxialAndSinogramCoordinates<float> lc;
+          if (lor.change_representation(lc, c.cyl->get_ring_radius()) == Succeeded::yes)
+            {
+              const double x = to_0_2pi(lc.phi() - c.cyl->get_azimuthal_angle_offset()) / c.cyl->get_azimuthal_angle_sampling();
+              arc_view_wrap = std::floor(x + 0.5) >= 2 * c.nviews;
+            }
+        }
+    }
+  if (arc_view_wrap)
+    {
+      // phi of the LOR a few float32 ulp below the angle of view 0: to_0_2pi() maps it to just under 2 pi, the view becomes
+      // 2*num_views and the single "-= num_views" leaves it at num_views, reported as a valid bin
+      ++st.done;
+      if (!D.arc_view_out_of_range)
+        {
+          D.arc_view_out_of_range = true;
+          ctx.violation("cyl-arc-get_bin-maps-phi-just-below-first-view-to-view-num_views",
+                        bins(b) + " -> get_LOR -> (" + lor_kind + ") get_bin -> " + bins(nb)
+                            + vf::fmt(" value %g, views are %d..%d, tangential positions %d..%d", nb.get_bin_value(), c.pdi->get_min_view_num(),
+                                      c.pdi->get_max_view_num(), c.pdi->get_min_tangential_pos_num(), c.pdi->get_max_tangential_pos_num()));
+        }
+      return true;
+    }
   const RT r = classify(c, b, nb);
   ++st.done;
   switch (r)
@@ -248,7 +286,7 @@ check_roundtrip_result(Ctx& ctx, const Cfg& c, const Bin& b, const Bin& nb, cons
 }
 
 static bool
-roundtrip(Ctx& ctx, const Cfg& c, const Bin& b, RtStats& st, bool& generic_badcast_seen)
+roundtrip(Ctx& ctx, const Cfg& c, const Bin& b, RtStats& st)
 {
   const ProjDataInfo& p = *c.pdi;
   double delta_time = p.get_tof_delta_time(b); // = time difference of get_k(bin)
@@ -259,19 +297,17 @@ roundtrip(Ctx& ctx, const Cfg& c, const Bin& b, RtStats& st, bool& generic_badca
       // (a) the LOR exactly as get_LOR reports it
       LORInAxialAndNoArcCorrSinogramCoordinates<float> lor;
       p.get_LOR(lor, b);
-      bool done = false;
-      if (!generic_badcast_seen)
+      if (!D.generic_badcast)
         {
           try
             {
               Bin nb = p.get_bin(lor, delta_time);
-              done = true;
-              if (!check_roundtrip_result(ctx, c, b, nb, "sinogram-lor", st))
+              if (!check_roundtrip_result(ctx, c, b, nb, "sinogram-lor", st, lor))
                 return false;
             }
           catch (const std::bad_cast&)
             {
-              generic_badcast_seen = true;
+              D.generic_badcast = true;
               ctx.violation("generic-get_bin-throws-bad_cast-for-the-LOR-returned-by-its-own-get_LOR",
                             bins(b)
                                 + ": ProjDataInfoGenericNoArcCorr::get_bin(lor) with lor from get_LOR(lor,bin) throws std::bad_cast "
@@ -279,7 +315,6 @@ roundtrip(Ctx& ctx, const Cfg& c, const Bin& b, RtStats& st, bool& generic_badca
               // defect-specific: keep checking the rest of this configuration with the representation get_bin accepts
             }
         }
-      (void)done;
       // (b) the same line as the two physical detector positions (the only representation get_bin accepts)
       DetectionPositionPair<> dp;
       c.gen->get_det_pos_pair_for_bin(dp, b);
@@ -288,13 +323,13 @@ roundtrip(Ctx& ctx, const Cfg& c, const Bin& b, RtStats& st, bool& generic_badca
       LORAs2Points<float> l2(c1, c2);
       Bin nb = p.get_bin(l2, delta_time);
       ++st.as2points;
-      return check_roundtrip_result(ctx, c, b, nb, "2points-lor", st);
+      return check_roundtrip_result(ctx, c, b, nb, "2points-lor", st, l2);
     }
   LORInAxialAndNoArcCorrSinogramCoordinates<float> lor;
   p.get_LOR(lor, b);
   {
     Bin nb = p.get_bin(lor, delta_time);
-    if (!check_roundtrip_result(ctx, c, b, nb, "sinogram-lor", st))
+    if (!check_roundtrip_result(ctx, c, b, nb, "sinogram-lor", st, lor))
       return false;
   }
   // same line given as two points on the detector cylinder
@@ -307,7 +342,7 @@ roundtrip(Ctx& ctx, const Cfg& c, const Bin& b, RtStats& st, bool& generic_badca
       }
     Bin nb = p.get_bin(l2, delta_time);
     ++st.as2points;
-    if (!check_roundtrip_result(ctx, c, b, nb, "2points-lor", st))
+    if (!check_roundtrip_result(ctx, c, b, nb, "2points-lor", st, l2))
       return false;
   }
   return true;
@@ -328,13 +363,13 @@ geo_fail(Ctx& ctx, const Cfg& c, const char* what, const Bin& b, double got, dou
 }
 
 static bool
-geometry(Ctx& ctx, const Cfg& c, const Bin& b, GeoStats& st, bool& generic_tanth_defect_seen, std::vector<DetectionPositionPair<>>& dps)
+geometry(Ctx& ctx, const Cfg& c, const Bin& b, GeoStats& st, std::vector<DetectionPositionPair<>>& dps)
 {
   const ProjDataInfo& p = *c.pdi;
   const int seg = b.segment_num();
   const float s_f = p.get_s(b), phi_f = p.get_phi(b), m_f = p.get_m(b), tt_f = p.get_tantheta(b);
   const int mind = c.cyl->get_min_ring_difference(seg), maxd = c.cyl->get_max_ring_difference(seg);
-  double s_ref = 0, m_ref = 0, tt_ref = 0, dphi = 0, L_ref = 0;
+  double s_ref = 0, m_ref = 0, tt_ref = 0, dphi = 0, L_ref = 0, tt_diam = 0, rmax_pair = 0;
   bool tt_from_pairs = true;
   size_t npairs = 0;
   bool flipped = false;
@@ -410,7 +445,14 @@ geometry(Ctx& ctx, const Cfg& c, const Bin& b, GeoStats& st, bool& generic_tanth
               ctx.violation(std::string(kname(c.klass)) + ":contributing-detector-pair-outside-scanner", bins(b) + vf::fmt(" (d%d,r%d)-(d%d,r%d)", d1, r1, d2, r2));
               return false;
             }
-          const Geo g = geo_from_points(c.dm.pos(d1, r1), c.dm.pos(d2, r2));
+          const P3 q1 = c.dm.pos(d1, r1), q2 = c.dm.pos(d2, r2);
+          const Geo g = geo_from_points(q1, q2);
+          {
+            // what "delta z between the intersections with the cylinder through the outer detector, divided by its diameter" would give
+            const double rc = std::max(std::hypot(q1.x, q1.y), std::hypot(q2.x, q2.y));
+            rmax_pair = std::max(rmax_pair, rc);
+            tt_diam += g.tantheta * std::sqrt(std::max(0., rc * rc - g.s * g.s)) / rc;
+          }
           s_ref += g.s;
           m_ref += g.m;
           tt_ref += g.tantheta;
@@ -422,6 +464,7 @@ geometry(Ctx& ctx, const Cfg& c, const Bin& b, GeoStats& st, bool& generic_tanth
       s_ref /= npairs;
       m_ref /= npairs;
       tt_ref /= npairs;
+      tt_diam /= npairs;
       L_ref /= npairs;
       dphi /= npairs;
       if (c.klass == BLOCKS || c.klass == GENERIC)
@@ -433,6 +476,7 @@ geometry(Ctx& ctx, const Cfg& c, const Bin& b, GeoStats& st, bool& generic_tanth
               dphi = wrap_pi(dphi - PI);
               s_ref = -s_ref;
               tt_ref = -tt_ref;
+              tt_diam = -tt_diam;
             }
         }
       else if (mind != maxd)
@@ -467,7 +511,7 @@ geometry(Ctx& ctx, const Cfg& c, const Bin& b, GeoStats& st, bool& generic_tanth
   if (!(std::fabs(m_f - m_ref) <= band_m))
     return geo_fail(ctx, c, "m", b, m_f, m_ref, band_m, vf::fmt("%zu pairs", npairs));
   // phi: exact where interleaving plays no role, else within half a view step
-  const bool phi_exact = !cylclass || !interleave_ambiguous(c, b.tangential_pos_num()) || c.klass == CYL_ARC;
+  const bool phi_exact = c.klass != CYL_NOARC || (b.tangential_pos_num() % 2) == 0;
   if (phi_exact)
     {
       ++st.phi_exact;
@@ -486,20 +530,16 @@ geometry(Ctx& ctx, const Cfg& c, const Bin& b, GeoStats& st, bool& generic_tanth
       if (!cylclass)
         {
           // recognise one specific defect: delta z divided by the cylinder diameter instead of the transaxial length of the LOR
-          const double Rl = L_ref / 2 / std::sqrt(std::max(1e-30, 1 - 0.0)); // placeholder to keep formula explicit below
-          (void)Rl;
-          const double Rcyl = std::sqrt((L_ref / 2) * (L_ref / 2) + s_ref * s_ref); // radius of the cylinder the chord (length L) spans
-          const double tt_diam = tt_ref * L_ref / (2 * Rcyl);
-          if (std::fabs(tt_f - tt_diam) <= band_tt + 1e-3 * std::fabs(tt_ref) && std::fabs(s_ref) > 1e-3 * Rcyl)
+          if (std::fabs(tt_f - tt_diam) <= band_tt + 1e-4 * std::fabs(tt_ref) && std::fabs(s_ref) > 1e-3 * rmax_pair)
             {
-              if (!generic_tanth_defect_seen)
+              if (!D.generic_tantheta)
                 {
-                  generic_tanth_defect_seen = true;
+                  D.generic_tantheta = true;
                   ctx.violation("generic-get_tantheta-divides-by-cylinder-diameter-instead-of-transaxial-LOR-length",
                                 bins(b)
                                     + vf::fmt(": get_tantheta %.9g, delta_z/sqrt(dx^2+dy^2) from the detector positions %.9g, "
                                               "delta_z/(2R) %.9g (s=%.6g, R=%.6g)",
-                                              tt_f, tt_ref, tt_diam, s_ref, Rcyl));
+                                              tt_f, tt_ref, tt_diam, s_ref, rmax_pair));
                 }
               return true; // defect-specific key reported once; keep checking the other quantities of this configuration
             }
@@ -769,38 +809,67 @@ arc_correction_checks(Ctx& ctx, const Cfg& c)
     {
       const auto& rin = in[v + p.get_min_view_num()];
       const auto& rout = out[v + pa.get_min_view_num()];
-      double integral_ref = 0, integral_got = 0, integral_band = 0;
+      // float64 overlap interpolation of this row onto [a0,a1], with the band of a float32 evaluation of the same sum
+      auto reference = [&](double a0, double a1, double& ref, double& band, int& nt) {
+        double A = 0, slack = 0;
+        ref = 0;
+        nt = 0;
+        for (int j = imin; j <= imax; ++j)
+          {
+            const double b0 = be[j - imin], b1 = be[j - imin + 1];
+            const double ov = std::min(a1, b1) - std::max(a0, b0);
+            const double v_in = rin[j];
+            if (ov > -2 * edge_err)
+              {
+                // touches (within the float32 uncertainty of the edges)
+                ++nt;
+                slack += std::fabs(v_in) * 2 * edge_err;
+                if (ov > 0)
+                  {
+                    ref += v_in * ov;
+                    A += std::fabs(v_in) * ov;
+                    if (ov <= 2 * eps_drop)
+                      slack += std::fabs(v_in) * ov; // may be dropped by the documented epsilon rule of overlap_interpolate
+                  }
+              }
+          }
+        ref /= ts;
+        band = vf::band32(nt + 2, A / ts) + slack / ts + 4 * EPS32 * std::fabs(ref);
+      };
+      double integral_got = 0, integral_band = 0;
+      bool row_hit_by_defect = false;
       for (int i = omin; i <= omax; ++i)
         {
           const double a0 = ae[i - omin], a1 = ae[i - omin + 1];
-          double ref = 0, A = 0, slack = 0;
-          int nt = 0;
-          bool fully_covered = a0 >= be.front() + edge_err && a1 <= be.back() - edge_err;
-          for (int j = imin; j <= imax; ++j)
-            {
-              const double b0 = be[j - imin], b1 = be[j - imin + 1];
-              const double lo = std::max(a0, b0), hi = std::min(a1, b1);
-              const double ov = hi - lo;
-              const double v_in = rin[j];
-              if (ov > -2 * edge_err)
-                {
-                  // touches (within the float32 uncertainty of the edges)
-                  ++nt;
-                  slack += std::fabs(v_in) * 2 * edge_err;
-                  if (ov > 0)
-                    {
-                      ref += v_in * ov;
-                      A += std::fabs(v_in) * ov;
-                      if (ov <= 2 * eps_drop)
-                        slack += std::fabs(v_in) * ov; // may be dropped by the documented epsilon rule
-                    }
-                }
-            }
-          ref /= ts;
-          const double band = vf::band32(nt + 2, A / ts) + slack / ts + 4 * EPS32 * std::fabs(ref);
+          double ref, band;
+          int nt;
+          reference(a0, a1, ref, band, nt);
+          const bool fully_covered = a0 >= be.front() + edge_err && a1 <= be.back() - edge_err;
           const double got = rout[i];
           if (!(std::fabs(got - ref) <= band))
             {
+              if (i == omax)
+                {
+                  // one specific defect: the right edge of the last arc-corrected bin is placed at (max+1.5)*ts, one bin too far
+                  double ref2, band2;
+                  int nt2;
+                  reference(a0, a1 + ts, ref2, band2, nt2);
+                  if (std::fabs(got - ref2) <= band2)
+                    {
+                      if (!D.arccorr_last_bin)
+                        {
+                          D.arccorr_last_bin = true;
+                          ctx.violation("arc-correction-last-output-bin-collects-two-bin-widths",
+                                        vf::fmt("view %d (%s row), last arc-corrected bin %d = [%.6g,%.6g] mm: got %.9g, overlap reference %.9g (band %.3g); "
+                                                "the value equals the reference for [%.6g,%.6g] (%.9g); input range [%.6g,%.6g], input bins %d..%d, "
+                                                "output bins %d..%d, sampling %.6g",
+                                                v, kind[v] == 0 ? "constant" : "random", i, a0, a1, got, ref, band, a0, a1 + ts, ref2, be.front(),
+                                                be.back(), imin, imax, omin, omax, ts));
+                        }
+                      row_hit_by_defect = true;
+                      continue;
+                    }
+                }
               ctx.violation(kind[v] == 0 ? "arc-correction-row-differs-from-overlap-reference-constant-row"
                                          : "arc-correction-row-differs-from-overlap-reference",
                             vf::fmt("view %d out tang %d: got %.9g, reference %.9g, band %.3g (ts %.6g, %d in bins touched)", v, i, got, ref, band, ts, nt));
@@ -813,10 +882,12 @@ arc_correction_checks(Ctx& ctx, const Cfg& c)
             }
           if (kind[v] == 0 && fully_covered)
             ctx.count("arc_correction_uniform_bins");
-          integral_ref += ref * ts;
           integral_got += got * ts;
           integral_band += band * ts;
         }
+      ctx.count("arc_correction_rows");
+      if (row_hit_by_defect)
+        continue;
       // integral over s: equals the integral of the input over the part of its range that the output covers
       double integral_in = 0;
       for (int j = imin; j <= imax; ++j)
@@ -831,7 +902,7 @@ arc_correction_checks(Ctx& ctx, const Cfg& c)
                         vf::fmt("view %d: sum out*ts %.9g, integral of input over covered range %.9g, band %.3g", v, integral_got, integral_in, integral_band));
           return false;
         }
-      ctx.count("arc_correction_rows");
+      ctx.count("arc_correction_integrals");
       if (ae.front() <= be.front() && ae.back() >= be.back())
         ctx.count("arc_correction_rows_full_coverage");
     }
@@ -963,6 +1034,13 @@ run_case(Ctx& ctx)
       ps.arccorr = false;
       ps.tof_mash = 0;
     }
+  if (ps.arccorr)
+    {
+      // arc-corrected bins must lie inside the detector ring (get_LOR asserts |s| < R): keep the tangential range inside 0.95 R
+      const double bs = c.sc->get_default_bin_size(), rr = c.sc->get_effective_ring_radius();
+      while (ps.num_tang > 1 && (ps.num_tang / 2) * bs >= 0.95 * rr)
+        --ps.num_tang;
+    }
   try
     {
       c.pdi = vg::make_pdi(c.sc, ps, &rng);
@@ -1048,7 +1126,7 @@ run_case(Ctx& ctx)
     for (int ax = p.get_min_axial_pos_num(seg); ax <= p.get_max_axial_pos_num(seg); ++ax)
       segax.push_back({ seg, ax });
   const long total = static_cast<long>(segax.size()) * c.nviews * ntang * ntof;
-  const long budget = ctx.thorough() ? 250000 : 30000;
+  const long budget = ctx.thorough() ? 250000 : 60000;
   const int stride = total <= budget ? 1 : coprime_stride((total + budget - 1) / budget, ntof, ntang, c.nviews);
   ctx.desc.add("bins_total", total);
   ctx.desc.add("stride", stride);
@@ -1056,7 +1134,7 @@ run_case(Ctx& ctx)
 
   RtStats rs;
   GeoStats gs;
-  bool badcast_seen = false, tanth_defect_seen = false;
+  D = Defects();
   std::vector<DetectionPositionPair<>> dps;
   const long offset = stride > 1 ? rng.range(0, stride - 1) : 0;
   for (long i = offset; i < total; i += stride)
@@ -1072,9 +1150,9 @@ run_case(Ctx& ctx)
       Bin b(sa.first, view, sa.second, tg);
       b.timing_pos_num() = k;
       b.set_bin_value(1.f);
-      if (!roundtrip(ctx, c, b, rs, badcast_seen))
+      if (!roundtrip(ctx, c, b, rs))
         return;
-      if (!geometry(ctx, c, b, gs, tanth_defect_seen, dps))
+      if (!geometry(ctx, c, b, gs, dps))
         return;
     }
   ctx.count("bins_roundtripped", rs.done);
